@@ -325,7 +325,7 @@ func (m *Dense) Slice(i, k, j, l int) Matrix {
 
 func (m *Dense) slice(i, k, j, l int) *Dense {
 	mr, mc := m.Caps()
-	if i < 0 || mr <= i || j < 0 || mc <= j || k < i || mr < k || l < j || mc < l {
+	if i < 0 || mr <= i || j < 0 || mc <= j || k <= i || mr < k || l <= j || mc < l {
 		if i == k || j == l {
 			panic(ErrZeroLength)
 		}
